@@ -288,22 +288,31 @@ StateAt(I, x, ys) ==
     [] I.solver = "dr"   -> [xi |-> x, v |-> ys, x |-> x]
 FixedPointLaw ==
   (k = 0 /\ pc = 0 /\ inst.solver \in (NonSmooth \ {"dr"})) =>
-     \A w \in KKTSet(inst) : LET s == StateAt(inst, w[1], w[2]) IN RefStep(inst, s) = s
-\* DR: search the lattice for fixed points of the iteration; each reports a KKT primal, and
-\* every KKT pair whose lifted point lies on the lattice is among them
-DRLift(I, x, ys, xi) == [xi |-> xi, x |-> x,
-                         v |-> [i \in 1..Len(I.Ls) |-> RAdd(ys[i], RScal(SMul(I.sig[i], Half), MatVec(I.Ls[i], xi)))]]
+     \A w \in KKTSet(inst) : \E s \in {StateAt(inst, w[1], w[2])} : RefStep(inst, s) = s
+\* DR (single operator, domain R^2): the KKT pair <<x, y>> lifts to the state (xi, v) with
+\*     v = y + sigma/2 L xi ,   xi = x - tau/2 L^T (2 y - v)
+\* i.e. (I - tau sigma/4 L^T L) xi = x - tau/2 L^T y  (solved by Cramer's rule; the matrix is positive
+\* definite for admissible steps); that state is a fixed point and reports x
+Solve2(M, r) ==
+  LET d == Det2(M) IN
+  << SDiv(SSub(SMul(r[1], M[2][2]), SMul(M[1][2], r[2])), d),
+     SDiv(SSub(SMul(M[1][1], r[2]), SMul(M[2][1], r[1])), d) >>
+DRLiftXi(I, x, ys) ==
+  LET G == Gram(L1of(I))
+      c == SMul(SMul(I.tau, S1of(I)), <<1, 4>>)
+      M == [i \in 1..2 |-> [j \in 1..2 |-> SSub(IF i = j THEN QOne ELSE QZero, SMul(c, G[i][j]))]]
+  IN  Solve2(M, RSub(x, RScal(SMul(I.tau, Half), MatTVec(L1of(I), ys[1]))))
+DRLift(I, x, ys) ==
+  LET xi == DRLiftXi(I, x, ys)
+  IN  [xi |-> xi, x |-> x,
+       v |-> <<RAdd(ys[1], RScal(SMul(S1of(I), Half), MatVec(L1of(I), xi)))>>]
 DRFixedPointLaw ==
-  (k = 0 /\ pc = 0 /\ inst.solver = "dr") =>
-     \A w \in KKTSet(inst) : \A xi \in VecsOver(LatX, Dim(inst)) :
-        LET s == DRLift(inst, w[1], w[2], xi)
-            consistent == xi = RSub(w[1], RScal(SMul(inst.tau, Half),
-                                  AdjSum(inst.Ls, [i \in 1..Len(inst.Ls) |-> RSub(RScal(Two, w[2][i]), s.v[i])], Dim(inst))))
-        IN  consistent => RefStep(inst, s) = s
+  (k = 0 /\ pc = 0 /\ inst.solver = "dr" /\ Len(inst.Ls) = 1 /\ Dim(inst) = 2) =>
+     \A w \in KKTSet(inst) : \E s \in {DRLift(inst, w[1], w[2])} : RefStep(inst, s) = s
 \* the as-coded forward-backward variant has the same fixed points
 FBCodeFixedPointLaw ==
   (k = 0 /\ pc = 0 /\ inst.solver = "fb") =>
-     \A w \in KKTSet(inst) : LET s == StateAt(inst, w[1], w[2]) IN FBStepCode(inst, s) = s
+     \A w \in KKTSet(inst) : \E s \in {StateAt(inst, w[1], w[2])} : FBStepCode(inst, s) = s
 \* conversely a fixed point of the iteration satisfies the optimality conditions (lattice search)
 FixedIsKKT ==
   (k = 0 /\ pc = 0 /\ inst.solver = "pg") =>
@@ -319,7 +328,11 @@ ApiStart(I, x, ys) ==
     [] I.solver = "fb"   -> [x |-> x, v |-> ZeroDuals(I)]
     [] I.solver = "pg"   -> [x |-> x]
 \* KKT pairs from which the reported iterate stays put when started through the API
-ApiFixed(I, w) == \A j \in 1..3 : RefRun(I, ApiStart(I, w[1], w[2]), j).x = w[1]
+\* (quantifier over a singleton: TLC evaluates the bound state once instead of once per use)
+RECURSIVE StaysAt(_, _, _, _)
+StaysAt(I, s, x, n) ==
+  IF n = 0 THEN TRUE ELSE \E s1 \in {RefStep(I, s)} : s1.x = x /\ StaysAt(I, s1, x, n - 1)
+ApiFixed(I, w) == \E s0 \in {ApiStart(I, w[1], w[2])} : StaysAt(I, s0, w[1], 3)
 
 Admissible(I) ==
   CASE I.solver = "pdhg" -> PDHGAdmissible(I) /\ I.th = QOne
